@@ -498,8 +498,12 @@ def check_C12(ctx, tier, seed):
     scratch = os.path.join(ctx.build_root, "default", "files")
     os.makedirs(scratch, exist_ok=True)
     # one REAL file beyond the generator's limit in every run (sparse: costs no disk), overlapped with the batch
-    side = ThreadPoolExecutor(max_workers=2)
+    side = ThreadPoolExecutor(max_workers=4)
     big_jobs = [side.submit(lambda: run_sim(ctx, b, ["hashfile-big", "--dir", scratch, "--variant", seed % 5, "--total", 4224281217 + seed % 3])[1])]
+    # a stream of ~100 MB through hash_stream_for with mostly full-buffer reads (anything that counts buffers / doubles sizes)
+    big_jobs.append(side.submit(lambda: run_sim(ctx, b, ["bigreader", "--variant", (seed + 1) % 5, "--pattern", "a40e17", "--seed", seed, "--total", 100_000_000 + seed % 1000])[1]))
+    # hash_file from a process without privileges on a file owned by somebody else
+    big_jobs.append(side.submit(lambda: run_sim(ctx, b, ["hashfile-unpriv", "--path", "/etc/passwd"])[1]))
     if tier != "quick":
         big_jobs.append(side.submit(lambda: run_sim(ctx, b, ["hashfile-big", "--dir", scratch, "--variant", (seed + 2) % 5, "--total", 4224281216])[1]))
     sim_batch(ctx, vd, "default", b, "c12", n)
